@@ -6,6 +6,7 @@ CONSTANTS
   MaxTicks = 0
   MaxBad = 0
   MaxSegIdx = 65535
+  SlotWrap = FALSE
   GenCanon = TRUE
 INVARIANTS ExactOrNothing NothingIfMissing AllSegmentsIn
 CONSTRAINT GenPrint
